@@ -14,7 +14,7 @@ structure AcceptedFacts (e : Env) (c : Chain) (raw : Bytes) (t : TxContent) (a :
   legacy : ¬ (t.memo = rlpMemo ∧ c.legacyRlpDisabled = true)
   send : checkSend a = .ok s
   fee : c.minFee ≤ t.fee
-  sig : checkSignature e c.strictKey t g s.fromAddr = .ok sender
+  sig : checkSignature e c.strictKey c.strictPad t g s.fromAddr = .ok sender
   nonce : t.memo = rlpV2Memo → (c.account sender).nonce ≤ t.nonce ∧ t.nonce ≠ maxUint64
 
 theorem accepted_inv (e : Env) (c : Chain) (raw : Bytes) (h : accepted e c raw = true) :
@@ -140,10 +140,11 @@ theorem inWindow_iff (h c : Nat) :
   by_cases hh : h > 4320 <;> simp [hh] <;> omega
 
 /-- what a successful signature check establishes for a transaction that is not RLP-wrapped -/
-theorem checkSignature_inv (e : Env) (strict : Bool) (t : TxContent) (g : SigC) (auth sender : Bytes)
-    (hm : isRlpMemo t.memo = false) (h : checkSignature e strict t g auth = .ok sender) :
+theorem checkSignature_inv (e : Env) (strict pad : Bool) (t : TxContent) (g : SigC) (auth sender : Bytes)
+    (hm : isRlpMemo t.memo = false) (h : checkSignature e strict pad t g auth = .ok sender) :
     ∃ sch k, pkDecode g.publicKey = some (sch, k) ∧ (strict = true → k = g.publicKey) ∧
-      e.verifies k (signBytes t) g.signature = true ∧ e.address k = some auth ∧ sender = auth := by
+      e.verifies k (signBytes t) g.signature = true ∧ e.address k = some auth ∧ sender = auth ∧
+      (pad = true → sch = .multi → multiPadOk g.publicKey = true) := by
   have hm1 : (t.memo == rlpV2Memo) = false := by
     simp only [isRlpMemo, Bool.or_eq_false_iff] at hm; exact hm.2
   have hm2 : (t.memo == rlpMemo) = false := by
@@ -154,25 +155,33 @@ theorem checkSignature_inv (e : Env) (strict : Bool) (t : TxContent) (g : SigC) 
   · next sch k hk =>
     split at h
     · simp at h
-    · next hst =>
-      simp only [hm1, hm2, Bool.false_and, Bool.or_self] at h
-      simp only [Bool.false_eq_true, if_false] at h
-      by_cases hver : e.verifies k (signBytes t) g.signature = true
-      · simp only [hver, if_true] at h
-        cases ha : e.address k with
-        | none => simp [ha] at h
-        | some a =>
-          simp only [ha] at h
-          by_cases haa : (a == auth) = true
-          · simp only [haa, if_true, Except.ok.injEq] at h
-            have : a = auth := by simpa using haa
-            subst this
-            refine ⟨sch, k, hk, ?_, hver, ha, h.symm⟩
-            intro hs
-            simp [hs] at hst
-            exact hst
-          · simp [haa] at h
-      · simp [hver] at h
+    · split at h
+      · simp at h
+      · next hpad =>
+        split at h
+        · simp at h
+        · next hst =>
+          simp only [hm1, hm2, Bool.false_and, Bool.or_self] at h
+          simp only [Bool.false_eq_true, if_false] at h
+          by_cases hver : e.verifies k (signBytes t) g.signature = true
+          · simp only [hver, if_true] at h
+            cases ha : e.address k with
+            | none => simp [ha] at h
+            | some a =>
+              simp only [ha] at h
+              by_cases haa : (a == auth) = true
+              · simp only [haa, if_true, Except.ok.injEq] at h
+                have : a = auth := by simpa using haa
+                subst this
+                refine ⟨sch, k, hk, ?_, hver, ha, h.symm, ?_⟩
+                · intro hs
+                  simp [hs] at hst
+                  exact hst
+                · intro hp hsch
+                  subst hp hsch
+                  simpa using hpad
+              · simp [haa] at h
+          · simp [hver] at h
 
 /-- symbolic-cryptography assumptions under which "same signed content" pins the signature down:
 one signature per (key, message) — deterministic schemes and a signer who signs a payload once —
@@ -401,8 +410,8 @@ theorem same_bytes_of_same_signed (e : Env) (c₁ c₂ : Chain) (raw₁ raw₂ :
   subst hsend
   have hrlp₁ := hm t₁ f₁.dec
   have hrlp₂ : isRlpMemo t₂.memo = false := by rw [hmemo]; exact hrlp₁
-  obtain ⟨_, k₁, hd₁, _, hv₁, had₁, _⟩ := checkSignature_inv e _ t₁ g₁ _ _ hrlp₁ f₁.sig
-  obtain ⟨_, k₂, hd₂, _, hv₂, had₂, _⟩ := checkSignature_inv e _ t₂ g₂ _ _ hrlp₂ f₂.sig
+  obtain ⟨_, k₁, hd₁, _, hv₁, had₁, _, _⟩ := checkSignature_inv e _ _ t₁ g₁ _ _ hrlp₁ f₁.sig
+  obtain ⟨_, k₂, hd₂, _, hv₂, had₂, _, _⟩ := checkSignature_inv e _ _ t₂ g₂ _ _ hrlp₂ f₂.sig
   have hk : k₂ = k₁ := hu.addr_inj k₂ k₁ _ had₂ had₁
   subst hk
   rw [signBytes_of_unsigned t₂ t₁ hun] at hv₂
